@@ -47,7 +47,7 @@ def run(ctx):
             harness_extra=["--cli", cli, "--scratch", scratch],
             extra_trusted=[
                 "stage oracles: what parser, resolvers, checker and printers answer for the files of a project is an input of the model; the harness obtains it by running the same crates in process, stage by stage as crates/cli/src/main.rs and check.rs do (its own copy of that glue, since nitrogql-cli is a bin crate)",
-                "PositionedError.additional_info has no accessor: read from the derived Debug output",
+                "PositionedError.additional_info is read through the hook verif_additional_info (cfg nitrogql_verif)",
                 "modelled from their sources/documentation: json-writer 0.4.0 (escaping, compact layout), std str::lines / char::is_whitespace / Path::{join,file_name,set_file_name,set_extension}, globmatch (matched paths are returned sorted), colored (no colours when the output is piped), async-task (a panic of a detached task is caught and dropped; main then exits with 101)",
                 "spec side (coq/C18/Spec.v): JSON reader written from RFC 8259 (unsigned integers only), GraphQL tokenizer written from spec section 2.1 (line breaks at \\n, columns in scalar values: the conventions of the reported positions), 'path:line:column' scanner",
                 "process and file-system behaviour (exit status, stdout/stderr, directory snapshot before/after) is observed on the real binary, not proved; file-system calls of generate are assumed to succeed in the model",
